@@ -122,7 +122,7 @@ def run(tier, seed, which="C02"):
             allev += kv.read_trace(tp)
         hb = os.path.join(swd, "all.ndjson")
         kv.write_ndjson(hb, [e for e in allev if e.get("e") != "Obj"])
-        r1 = kv.run_tlc("TaskTreeTrace", "TaskTreeTrace.cfg", swd, trace=hb, cont=True, timeout=1800, heap="4g", name="hb")
+        r1 = kv.run_tlc("TaskTreeTrace", "TaskTreeTrace.cfg", swd, trace=hb, timeout=1800, heap="4g", name="hb")
         # output identity per build family
         gev = []
         for fam in (("rel", "noomp"), ("san",)):
@@ -135,7 +135,7 @@ def run(tier, seed, which="C02"):
                 gev += objs if objs else [dict(e="Obj", tag="out", null=1)]
         gp = os.path.join(swd, "group.ndjson")
         kv.write_ndjson(gp, gev)
-        r2 = kv.run_tlc("RelateTrace", "RelateTrace.cfg", swd, trace=gp, cont=True, timeout=1800, heap="6g", name="id")
+        r2 = kv.run_tlc("RelateTrace", "RelateTrace.cfg", swd, trace=gp, timeout=1800, heap="6g", name="id")
         return si, r1, r2, hb, gp
 
     for si, r1, r2, hb, gp in kv.pmap(validate, range(len(S)), workers=6):
